@@ -39,9 +39,34 @@ def random_text(rng):
             parts.append(rng.choice(FRAGS))
     return ''.join(parts)
 
+def keyword_lookalikes():
+    """words that are NOT keywords but differ from one only by Unicode normalisation, case, a joiner or a
+    neighbouring letter: each must lex as an identifier"""
+    import unicodedata
+    out = []
+    for name, kw in KW.items():
+        for form in ('NFD', 'NFC', 'NFKD', 'NFKC'):
+            v = unicodedata.normalize(form, kw)
+            if v != kw:
+                out.append(v)
+        out.append(kw + '\u200d')          # zero-width joiner appended
+        out.append(kw[:-1])                 # one character short
+        out.append(kw + kw[-1])             # last character doubled
+        out.append(kw.replace('\u09df', '\u09af'))   # without the nukta
+    out += [w.upper() for w in ['nil']] + ['Nil', 'nill', 'ni']
+    seen, res = set(), []
+    for w in out:
+        if w and w not in seen and w not in KW.values() and w != 'nil':
+            seen.add(w); res.append(w)
+    return res
+
 def c09(tier, rng):
     cases = []
     maxlen = 3
+    for w in keyword_lookalikes():
+        cases.append(run_case('lex', w, label='keyword-lookalike'))
+        cases.append(run_case('lex', w + ' = 1;', label='keyword-lookalike'))
+        cases.append(run_case('lex', '(' + w + ')', label='keyword-lookalike'))
     for s in all_strings(FRAGS, maxlen):
         cases.append(run_case('lex', s, label='frag'))
     if tier == 'thorough':
@@ -65,7 +90,7 @@ def c09(tier, rng):
         cases.append(Case('bad-utf8', req('lex', bs), LEXKEYS, src=bs.decode('latin1')))
     rule = (f'every string of <= {maxlen} fragments over {len(FRAGS)} lexical fragments' +
             (f', every string of <= 4 over {len(FRAGS_SMALL)} fragments' if tier == 'thorough' else '') +
-            f'; single code points (step {step} above U+3100, all below, each also inside a word); {n} seeded random texts with '
+            f'; {len(keyword_lookalikes())} keyword look-alikes (other normalisation forms, joiners, neighbours); single code points (step {step} above U+3100, all below, each also inside a word); {n} seeded random texts with '
             'multi-line strings and comments; malformed UTF-8. Non-trivial = produces a token other than EOF or a diagnostic.')
     return {'cases': cases, 'rule': rule, 'exhaustive': True}
 
